@@ -155,6 +155,8 @@ def concretize(v: Any, ev: Callable[[Any], Any], live: bool) -> Any:
         return o
     if isinstance(v, tuple):
         return tuple(concretize(x, ev, live) for x in v)
+    if hasattr(v, "pyvc_concretize"):
+        return v.pyvc_concretize(ev, live)
     from .values import SList
 
     if isinstance(v, SList):
